@@ -156,6 +156,9 @@ def run():
     # ... and Modes.tla the document-wide conversions (ice mode, font usage)
     from props import modeslib
     modeslib.run_into(c, thorough)
+    # ... and LayerOps.tla every layer operation (stack, current layer, merge, sizes, undo records)
+    from props import layeropslib
+    layeropslib.run_into(c, thorough)
     area_reports, c.reports = c.reports[n_before:], c.reports[:n_before]
     summ = {}
     try:
